@@ -143,7 +143,11 @@ def run(chk):
                 rgs.append(rg)
             path = os.path.join(d, f"p{fi}.parquet")
             try:
-                pq.write_file(path, [col, other, idc], rgs, page_version=rng.choice([1, 2]), codec=rng.choice(["UNCOMPRESSED", "GZIP"]))
+                # physical column order is permuted: filter/projection column ids must be mapped through the pruned projection
+                perm = rng.choice([(0, 1, 2), (1, 0, 2), (2, 1, 0), (1, 2, 0), (2, 0, 1), (0, 2, 1)])
+                chk.count(f"physical column order {perm}")
+                pcols = [[col, other, idc][k] for k in perm]
+                pq.write_file(path, pcols, [[tuple(r[k] for k in perm) for r in rg] for rg in rgs], page_version=rng.choice([1, 2]), codec=rng.choice(["UNCOMPRESSED", "GZIP"]))
             except Exception:
                 continue
             vals = [r[0] for r in allrows if r[0] is not None]
